@@ -6,6 +6,20 @@
    offset, size) is coherent with the file is OS behaviour: tested by the harness, not proved. *)
 From VM Require Import Prelude.MachInt Prelude.Outcome Impl.MmapBuild Impl.Xen Spec.C15 Suite.C15 Proofs.C15 Proofs.C15ModelOk.
 
+(* the implementation model satisfies the executable spec checker on EVERY well-formed request of the
+   standard build: any constructor kind, size, prot, flags, file length and offset, pointer, guest
+   base, power-of-two page size, and either answer of the kernel to the mmap (probe 0 / 1; probe 2 =
+   "not probed" only where the harness does not probe: external pointer or explicit MAP_FIXED) *)
+Theorem C15_model_ok : forall c probe k,
+  kind_ok (c_kind c) (match c_file c with Some _ => true | None => false end)
+          (match c_raw c with Some _ => true | None => false end)
+          (match c_base c with Some _ => true | None => false end) = true ->
+  c_page c = 2 ^ k ->
+  (probe = 0 \/ probe = 1 \/
+   (probe = 2 /\ (c_raw c <> None \/ (explicit_flags c = true /\ hasbit (c_flags c) 16 = true)))) ->
+  ok_C15 c (run_C15 c probe) = true.
+Proof. exact C15_model_ok_lemma. Qed.
+
 (* build_ok_iff: MmapRegionBuilder::build accepts EXACTLY the safe requests (and then returns the
    requested region): an external pointer iff it is page aligned; otherwise iff MAP_FIXED (bit 4) is
    clear, the file range neither overflows nor extends past EOF, and the kernel grants the mmap *)
@@ -128,6 +142,7 @@ Example C15_nonvacuous :
   (exists g, build Debug o (q 4096 1 (Some 8192)) = Val (Ok g, []) /\ g_owned g = false).
 Proof. vm_compute. repeat split; repeat eexists. Qed.
 
+Print Assumptions C15_model_ok.
 Print Assumptions C15_build_ok_iff.
 Print Assumptions C15_reports_request.
 Print Assumptions C15_fail_maps_nothing.
